@@ -287,7 +287,8 @@ def snapshot(state):
             heads.append({"uid": hu, "pos": h.position, "status": h.status.value, "kind": _elem_kind(el),
                           # the event the element waits for NOW (dispatcher's view, current context); `reg_name`: what it named
                           # when the head was last registered (None: never registered through the interpreter's own function)
-                          "name": cv.waited_name_at(state, fs, h.position), "reg_name": cv.REC.regnames.get((uid, hu)),
+                          "name": cv.waited_name_at(state, fs, h.position), "reg_name": (cv.REC.regnames.get((uid, hu)) or [None, None])[0],
+                          "reg_pos": (cv.REC.regnames.get((uid, hu)) or [None, None])[1],
                           "key_ok": hu == h.uid and h.flow_state_uid == uid,
                           "cb": h.position_changed_callback is not None and h.status_changed_callback is not None})
         scopes_f, scopes_a = [], []
@@ -845,16 +846,17 @@ def check_snapshot(snap):
         renamed = [e for e in stale if tuple(e[1]) in by_key_w]
         if renamed and len(missed) == len(stale) == len(renamed):
             # every difference is a head filed under another name than the one its element names now.  Two different classes:
-            #   * the bucket IS the name the element named when the head was registered, and the name changed afterwards (a context
-            #     variable was reassigned while the head waited)                                  -> index-name-stale
+            #   * the bucket IS the name the element named when the head was registered AT THE POSITION IT STILL HAS, and the name
+            #     changed afterwards (a context variable was reassigned while the head waited)     -> index-name-stale
             #   * the bucket was never the element's name, not even at the moment of the registration (the name was not taken from
             #     the current value of the reference: cached per statement / flow / position ...)  -> index-name-wrong-at-registration
-            reg = {(i["uid"], h["uid"]): h.get("reg_name") for i in snap["insts"] for h in i["heads"]}
+            reg = {(i["uid"], h["uid"]): (h.get("reg_name") if h.get("reg_pos") == h["pos"] else None) for i in snap["insts"] for h in i["heads"]}
             wrong = [e for e in renamed if reg.get(tuple(e[1])) != e[0]]
             if wrong:
                 e = wrong[0]
                 bad.append(("index-name-wrong-at-registration", f"head {e[1]} is filed under {e[0]!r} but its match element names {by_key_w[tuple(e[1])]!r} "
-                            f"(and named {reg.get(tuple(e[1]))!r} when the head was registered): the event of that name never reaches the head"))
+                            f"(and named {reg.get(tuple(e[1]))!r} when the head was registered there; None = never registered at this position): "
+                            f"the event of that name never reaches the head"))
             else:
                 bad.append(("index-name-stale", f"head registered under {renamed[0][0]!r} but its element now names {by_key_w[tuple(renamed[0][1])]!r}"))
         else:
